@@ -394,6 +394,33 @@ def rule_alias(ctx: Ctx) -> None:
     ctx.floor("C06-6", 1)
 
 
+def rule_layer_removal(ctx: Ctx) -> None:
+    """C06-4: removing one injected latency layer from a link's chain is a correct singly-linked removal: head case, cursor starts at the
+    head, advances along `_base`, splices the layer out wherever it sits."""
+    prog = ctx.prog
+    fn = prog.func(NETF, "_remove_latency_layer")
+    link, layer = fn.params()[:2]
+    ff = ctx.flow(fn)
+    head = [st for st in walk_stmts(fn.node.body) if isinstance(st, ast.Assign) and path_of(st.targets[0]) == f"{link}.latency"]
+    okh = len(head) == 1 and path_of(head[0].value) == f"{layer}._base" and ff.holds_at(node_of(ff.cfg, head[0]), Fact("is", f"{link}.latency", layer))
+    loops = [st for st in fn.node.body if isinstance(st, ast.While)]
+    okc = len(loops) == 1
+    cursor = None
+    if okc:
+        lp = loops[0]
+        adv = [st for st in lp.body if isinstance(st, ast.Assign) and isinstance(st.targets[0], ast.Name) and path_of(st.value) == f"{path_of(st.targets[0])}._base"]
+        okc = len(adv) == 1
+        if okc:
+            cursor = path_of(adv[0].targets[0])
+            init = [st for st in fn.node.body if isinstance(st, ast.Assign) and path_of(st.targets[0]) == cursor]
+            okc = len(init) == 1 and path_of(init[0].value) == f"{link}.latency" and fn.node.body.index(init[0]) < fn.node.body.index(lp)
+            spl = [st for st in walk_stmts(lp.body) if isinstance(st, ast.Assign) and path_of(st.targets[0]) == f"{cursor}._base"]
+            okc = okc and len(spl) == 1 and path_of(spl[0].value) == f"{layer}._base" and ff.holds_at(node_of(ff.cfg, spl[0]), Fact("is", f"{cursor}._base", layer))
+            okc = okc and f"isinstance({cursor}, _CompoundLatency)" in unparse(lp.test)
+    ctx.ob("C06-4", "G2", fn, head[0] if head else None, okh and okc,
+           "_remove_latency_layer unlinks the layer at the head (link.latency is layer) or, walking from the head along _base, wherever it sits below (a walk that starts one level down never finds the layer directly under the outermost one)")
+
+
 def run(ctx: Ctx) -> None:
     ctx.guarded(rule_crash_discipline)
     ctx.guarded(rule_closure_composability)
@@ -401,16 +428,18 @@ def run(ctx: Ctx) -> None:
     ctx.guarded(rule_symmetry)
     ctx.guarded(rule_cancel)
     ctx.guarded(rule_alias)
+    ctx.guarded(rule_layer_removal)
 
 
 MUTANTS = [
+    ("layer-walk-starts-below-head", NETF, "    outer = link.latency\n    while isinstance(outer, _CompoundLatency):", "    outer = link.latency._base\n    while isinstance(outer, _CompoundLatency):", "C06-4"),
     ("continuation-ignores-crash", EV, "        if getattr(self.target, \"_crashed\", False):\n            return []\n\n        tracing_on = _event_tracing_enabled", "        tracing_on = _event_tracing_enabled", "C06-1"),
     ("event-ignores-crash", EV, "        if getattr(self.target, \"_crashed\", False):\n            return []\n\n        if _event_tracing_enabled:", "        if _event_tracing_enabled:", "C06-1"),
     ("crashed-branch-runs-hooks", EV, "        if getattr(self.target, \"_crashed\", False):\n            return []\n\n        if _event_tracing_enabled:",
      "        if getattr(self.target, \"_crashed\", False):\n            return self._run_completion_hooks(self.time)\n\n        if _event_tracing_enabled:", "C06-1"),
     ("leave-down-clears-flag", NODE, "    entity._crashed = entity._down_windows > 0  # type: ignore[attr-defined]", "    entity._crashed = False  # type: ignore[attr-defined]", "C06-3"),
     ("enter-down-not-counted", NODE, "    entity._down_windows = getattr(entity, \"_down_windows\", 0) + 1  # type: ignore[attr-defined]\n", "", "C06-3"),
-    ("crash-sets-flag-directly", NODE, "        def restart(e: Event) -> None:\n            _leave_down(entity)", "        def restart(e: Event) -> None:\n            entity._crashed = False", "C06-3"),
+    ("crash-sets-flag-directly", NODE, "            def restart(e: Event) -> None:\n                _leave_down(entity)", "            def restart(e: Event) -> None:\n                entity._crashed = False", "C06-3"),
     ("latency-restores-captured-original", NETF, ["        layer: _CompoundLatency | None = None\n", "            if layer is not None:\n                _remove_latency_layer(link, layer)"],
      ["        layer: _CompoundLatency | None = None\n        original_latency = link.latency\n", "            link.latency = original_latency"], "C06-3"),
     ("latency-layers-on-captured", NETF, "            layer = _CompoundLatency(link.latency, extra_dist)", "            layer = _CompoundLatency(base_latency, extra_dist)", "C06-3"),
